@@ -117,6 +117,23 @@ def defaultPhases : List (List Char) := [['(', 's', ')'], ['(', 'l', ')'], ['(',
 def speciesMass (phases : List (List Char)) (s : String) : Except MassErr Rat :=
   formulaMassWith Gen.prefixesL (phases ++ [['(', 'a', 'q', ')']]) s.toList
 
+/-- `mass_fractions(stoichiometries)` with the default `substances=None, substance_factory=Substance.from_formula`
+    for a dict `{formula text: coefficient}`: first every key is turned into a substance (a parser exception of the
+    first bad key escapes), then `massFractions` runs on the (mass, coefficient) pairs (`none` = ZeroDivisionError).
+    A composition produced by the parser never has a key past the table, so the IndexError branch of `formulaMass` is dead here.
+    This is the composition of the two driver ops `formula_mass` and `mass_fractions` (the harness composes them the same way). -/
+def mixtureFractions (st : List (String × Rat)) : Except MassErr (Option (List Rat)) :=
+  match st.mapM (fun kv => match formulaMass kv.1 with
+      | .ok m => (.ok (m, kv.2) : Except MassErr (Rat × Rat))
+      | .error e => .error e) with
+  | .error e => .error e
+  | .ok mv => .ok (massFractions mv)
+
+/-- the suffixes `Species.from_formula` appends to `tuple(phases)`, from the generated constants
+    (same expression as `speciesExtraSuffixes` of Model/FormulaFormat.lean, C13); `speciesMass` writes the value out,
+    Props/C14 `species_extra_suffix_guard` ties the two together. -/
+def speciesExtraSuffixes : List (List Char) := Gen.speciesSuffixesL.drop Gen.speciesPhases.length
+
 /-! ### specification side (independent of the loop above; used in the statements of Props/C14.lean) -/
 
 /-- standard atomic weight of atomic number `z` as a plain number, for use inside sums.
